@@ -10,9 +10,9 @@ Modelled: `comment_style`, `is_custom_comment`, `custom_opener`, `consume_same_l
 the first block comment (`find_comment_end`, through the `CharClasses` model), `light_rewrite_comment`, and
 the recursion on the rest of the comment.  Offsets are counted in characters (equal to the byte offsets of
 the code on ASCII text, to which the correspondence check restricts itself).
-NOT modelled: `trim_left_preserve_layout` (a block comment with a "bare line", i.e. a line that does not
-start with `*`, `//` or `/*`): `rewriteCommentLight` answers `none` there and the correspondence check
-does not use such comments.  `char::is_alphanumeric` is modelled for ASCII only, and the `fnw - 1` byte
+Also modelled: `trim_left_preserve_layout` (utils.rs), which rewrites a block comment with a "bare line"
+(a line that starts with neither `*`, `//` nor `/*`), over the `LineClasses` model; `none` is then the
+`Err(_)` of the real function.  `char::is_alphanumeric` is modelled for ASCII only, and the `fnw - 1` byte
 index of `light_rewrite_comment` as "one character back" (equal when that character is ASCII).
 -/
 namespace RF.Lists
@@ -144,6 +144,60 @@ def lightLine (l : List Char) : List Char :=
 def lightRewriteComment (orig : List Char) (nl : List Char) : List Char :=
   nl.intercalate ((rustLines orig).map lightLine)
 
+/-- `utils::is_empty_line` -/
+def isEmptyLine (s : List Char) : Bool := s.all isWhitespace
+
+/-- `utils::get_prefix_space_width` -/
+def prefixSpaceWidth (tabSpaces : Nat) : List Char → Nat
+  | [] => 0
+  | c :: cs =>
+    if c = ' ' then 1 + prefixSpaceWidth tabSpaces cs
+    else if c = '\t' then tabSpaces + prefixSpaceWidth tabSpaces cs
+    else 0
+
+/-- The `filter_map` closure of `trim_left_preserve_layout` over the lines after the first:
+returns the `trimmed_lines` (trimmed?, line, prefix_space_width) and the widths that enter the minimum.
+`veto` is `veto_trim`; `ed2024` is `style_edition >= 2024`. -/
+def tlplLines (tabSpaces : Nat) (ed2024 : Bool) :
+    List (RF.CharClasses.Kind × List Char) → Bool → List (Bool × List Char × Option Nat) × List Nat
+  | [], _ => ([], [])
+  | (kind, line) :: rest, veto =>
+    let psw := if isEmptyLine line then none else some (prefixSpaceWidth tabSpaces line)
+    let newVeto := (kind = .inString || (ed2024 && kind = .inStringCommented)) && !endsWith ['\\'] line
+    let (entry, veto') :=
+      if veto || newVeto then ((false, line, psw), newVeto) else ((true, trim line, psw), veto)
+    let counted : Option Nat :=
+      if ed2024 && (kind = .inStringCommented || kind = .endStringCommented) then none
+      else if kind = .inString || kind = .endString then none
+      else psw
+    let (es, ws) := tlplLines tabSpaces ed2024 rest veto'
+    (entry :: es, counted.toList ++ ws)
+
+/-- `utils::trim_left_preserve_layout(orig, indent, config)`, utils.rs:582-649.  `none` = `None`
+(no first line, or no line that counts for the minimum).  `Indent::from_width` / `to_string` come from
+the shape model (empty string where they panic). -/
+def trimLeftPreserveLayout (orig : List Char) (indent : Indent) (config : Config) (ed2024 : Bool) :
+    Option (List Char) :=
+  match RF.CharClasses.lineClasses orig with
+  | [] => none
+  | (_, first) :: rest =>
+    let firstLine := trimEnd first
+    let (entries, widths) := tlplLines config.tab_spaces ed2024 rest false
+    match widths with
+    | [] => none
+    | w :: ws =>
+      let minW := ws.foldl min w
+      let render (e : Bool × List Char × Option Nat) : List Char :=
+        if !e.1 then e.2.1
+        else match e.2.2 with
+          | some originalIndentWidth =>
+            let newIndentWidth := indent.width + (originalIndentWidth - minW)
+            (match Indent.from_width config newIndentWidth with
+              | .ok ni => indentString ni config
+              | .error _ => []) ++ e.2.1
+          | none => []
+      some (firstLine ++ ['\n'] ++ ['\n'].intercalate (entries.map render))
+
 /-- The first group of a comment, comment.rs:304-345: (has bare lines, the raw lines of the group). -/
 def firstGroupOf (orig : List Char) : Bool × List (List Char) :=
   let style := commentStyle orig
@@ -155,28 +209,34 @@ def firstGroupOf (orig : List Char) : Bool × List (List Char) :=
   | _ => blockGroup ((findCommentEnd orig).getD orig.length) raws 0 false
 
 /-- `identify_comment` (comment.rs:252-395) under `normalize_comments = false`, `wrap_comments = false`,
-`is_doc_comment = false`.  `indentStr` is `shape.indent.to_string(config)`.  `none` = outside the model
-(a block comment with bare lines, which goes through `trim_left_preserve_layout`). -/
-def identifyCommentLight (indentStr : List Char) : Nat → List Char → Option (List Char)
+`is_doc_comment = false`.  `indentStr` is `shape.indent.to_string(config)`; `bare` is
+`trim_left_preserve_layout(_, shape.indent, config)`, used for a block comment with bare lines.
+`none` = `Err(_)`. -/
+def identifyCommentLight (indentStr : List Char) (bare : List Char → Option (List Char)) :
+    Nat → List Char → Option (List Char)
   | 0, _ => none
   | fuel + 1, orig =>
     let style := commentStyle orig
     let (hasBareLines, group) := firstGroupOf orig
     let firstGroup := group.flatten
     let rest := orig.drop firstGroup.length
-    if hasBareLines && style.isBlockComment then none
-    else
-      let rewrittenFirstGroup := lightRewriteComment firstGroup ('\n' :: indentStr)
+    let rewritten : Option (List Char) :=
+      if hasBareLines && style.isBlockComment then bare firstGroup
+      else some (lightRewriteComment firstGroup ('\n' :: indentStr))
+    match rewritten with
+    | none => none
+    | some rewrittenFirstGroup =>
       if rest.isEmpty then some rewrittenFirstGroup
       else
-        match identifyCommentLight indentStr fuel (trimStart rest) with
+        match identifyCommentLight indentStr bare fuel (trimStart rest) with
         | none => none
         | some restStr =>
           some (rewrittenFirstGroup ++ ['\n'] ++
             (if hasBareLines && style.isLineComment then ['\n'] else []) ++ indentStr ++ restStr)
 
-/-- `rewrite_comment` for the driver. -/
+/-- `rewrite_comment` for the driver (style edition below 2024, the default). -/
 def rewriteCommentLight (config : Config) : Rc := fun orig _blockStyle shape =>
-  identifyCommentLight (indentString shape.indent config) (orig.length + 1) orig
+  identifyCommentLight (indentString shape.indent config)
+    (fun g => trimLeftPreserveLayout g shape.indent config false) (orig.length + 1) orig
 
 end RF.Lists
